@@ -194,6 +194,7 @@ class Ctx:
         self.in_capture = False
         self.caps: List[Tuple[Cap, int, int, int]] = []   # (cap, inv, branch, step)
         self.nest_budget = profile.get('nest_depth', 0)
+        self.envmut = False      # one closure operand mutates the caller-side local `__cnt` (plain join!/try_join! only)
         self.kwvars = []         # (name, expr): callbacks bound to local variables named like handler keywords, before the macro
         self.multi_call = 0      # > 0 while generating the inner chain of a closure that is called per element
         self.no_caps = 0         # > 0 where a block capture would be borrowed by a non-move closure that must be 'static
@@ -232,12 +233,16 @@ def shape(ctx, expr, args=None, ret=None, hoistable=True, byref=False, turbofish
     if args is not None and not byref and all(is_val(a) for a in args) and ctx.p.get('closures', 0.2) > 0:
         w = 10 * ctx.p.get('closures', 0.2)
         shapes += [(w * 0.4, 'closure'), (w * 0.2, 'move'), (w * 0.4 if ret is not None and is_val(ret) else 0, 'ret')]
+        if (ctx.p.get('envmut', 0.0) > 0 and not ctx.envmut and not ctx.is_async and ctx.async_depth == 0 and ctx.cur_inv == 0 and not ctx.in_capture
+                and ctx.cur_step != STEP_HANDLER):
+            shapes.append((10 * ctx.p.get('envmut', 0.0), 'envmut'))
     if turbofish is not None and ctx.p.get('turbofish', 0.1) > 0:
         shapes.append((10 * ctx.p.get('turbofish', 0.1), 'turbofish'))
     if ctx.p.get('opnoise', 0.0) > 0:
         shapes.append((10 * ctx.p.get('opnoise', 0.0), 'opnoise'))
     if (ctx.p.get('kwvars', 0.02) > 0 and ctx.cur_inv == 0 and ctx.multi_call == 0 and not ctx.in_capture and len(ctx.kwvars) < 3
-            and ctx.cur_step != STEP_HANDLER):
+            and ctx.cur_step != STEP_HANDLER and ctx.no_caps == 0):
+        # (no_caps > 0: inside a non-move wrapper closure that must be 'static — a borrowed local is as illegal there as a capture)
         shapes.append((10 * ctx.p.get('kwvars', 0.02), 'kwvar'))
     s = ctx.pick_w(shapes)
     if s == 'kwvar':
@@ -263,6 +268,10 @@ def shape(ctx, expr, args=None, ret=None, hoistable=True, byref=False, turbofish
     if ctx.chance(ctx.p.get('guard_noise', 0.25)):
         # operator look-alikes at the top level of a NOT YET complete operand
         call = 'if %s { %s } else { unreachable!() }' % (ctx.rng.choice(GUARD_NOISE), call)
+    if s == 'envmut':
+        # the closure mutates a Copy local of the caller BY REFERENCE; the run function reads it after the macro
+        ctx.envmut = True
+        return Operand('|%s| { __cnt += 1; %s }' % (params, call))
     if s == 'closure':
         return Operand('|%s| %s' % (params, call))
     if s == 'move':
@@ -1333,6 +1342,7 @@ def _gen_invocation_body(ctx, inv, nb, depths, acts_per_step, same):
             mark_ev, mark_evs, mark_caps, mark_inv = ctx.next_ev, len(ctx.evs), len(ctx.caps), len(ctx.invs)
             mark_next_inv = ctx.next_inv
             mark_kw = len(ctx.kwvars)
+            mark_envmut = ctx.envmut
             try:
                 b = gen_branch(ctx, inv, i, depths[i], acts_per_step, same)
                 inv.branches.append(b)
@@ -1344,6 +1354,7 @@ def _gen_invocation_body(ctx, inv, nb, depths, acts_per_step, same):
                 del ctx.invs[mark_inv:]
                 ctx.next_inv = mark_next_inv
                 del ctx.kwvars[mark_kw:]
+                ctx.envmut = mark_envmut
                 ctx.multi_call = 0
                 ctx.no_caps = 0
                 ctx.is_async = inv.is_async
@@ -1603,6 +1614,9 @@ class Program:
         A = self.top.is_async
         rc = render_code(self.top)
         pre = ''.join('let %s = %s; ' % kv for kv in self.ctx.kwvars)
+        if self.ctx.envmut:
+            pre += 'let mut __cnt = 0usize; '
+            rc = 'format!("{}#cnt={}", %s, __cnt)' % rc
         runs = []
         for (kname, kvar) in self.kind_list():
             if kname in stub_kinds:
@@ -1710,6 +1724,9 @@ def gen_program(pid, slice_name, profile, family, seed, same_typed=False, kinds=
             top = gen_invocation(ctx, None, family[1], family[0] == 'async', same_typed=same_typed or profile.get('same_typed', False))
         except (Retry, RuntimeError):
             continue
+        if ctx.envmut:
+            # a closure borrowing caller-side state cannot be sent to a thread: the plain macro only
+            kinds = ['try_join' if family[1] else 'join']
         return Program(pid, slice_name, top, ctx, kinds=kinds)
     raise RuntimeError('cannot generate program %s/%d' % (slice_name, pid))
 
@@ -1854,6 +1871,37 @@ def gen_grid(pid, family, b, a, seed, steps=2):
         inv.handler = gen_handler(ctx, inv, b)
     inv.result_ty = result_type(inv)
     return Program(pid, 'grid', inv, ctx)
+
+
+def split_top(text):
+    """split a macro body at its top-level commas (outside () [] {})"""
+    out, depth, cur = [], 0, []
+    for ch in text:
+        if ch in '([{':
+            depth += 1
+        elif ch in ')]}':
+            depth -= 1
+        if ch == ',' and depth == 0:
+            out.append(''.join(cur))
+            cur = []
+        else:
+            cur.append(ch)
+    out.append(''.join(cur))
+    return out
+
+
+def envmut_in_wrapper_after_capture(text):
+    """some branch has, within one step, a block capture, then an open `>>>` wrapper containing the `__cnt += 1` closure"""
+    for br in split_top(text):
+        for step in br.split('~'):
+            j = step.find('__cnt += 1')
+            if j < 0:
+                continue
+            seg = step[:j]
+            k = seg.rfind('>>>')
+            if k >= 0 and k > seg.rfind('<<<') and ('{ w::cap(' in seg[:k] or '{ w::snap' in seg[:k]):
+                return True
+    return False
 
 
 def slice_programs(slice_name, tier, master_seed, base_id):
@@ -2014,6 +2062,21 @@ def slice_programs(slice_name, tier, master_seed, base_id):
                         j = text.find(tok, j + 1)
                     return False
                 add(p, fam, 'sk-capin-' + op, require=req)
+    if slice_name == 'wrap':
+        # a closure INSIDE a wrapper mutates a caller-side Copy local by reference (plain join! / try_join! only), with a block
+        # capture earlier in the same step of that branch; and the same without the capture
+        for fam in [f for f in fams if f[0] == 'sync']:
+            for rep in range(3):
+                p = dict(prof)
+                p['envmut'] = 0.8
+                p['closures'] = 0.5
+                p['captures'] = 0.5
+                p['turbofish'] = 0.0
+                add(p, fam, 'sk-envmut-cap-%d' % rep, require=envmut_in_wrapper_after_capture)
+            p = dict(prof)
+            p['envmut'] = 0.8
+            p['closures'] = 0.5
+            add(p, fam, 'sk-envmut', require='__cnt += 1')
     if slice_name in ('steps', 'try', 'handler'):
         profiles = [(1, 3), (3, 1), (2, 1, 3), (1, 2, 2), (3, 2, 1), (2, 2), (1, 1, 2), (4, 1), (1, 4, 2, 3)]
         for fam in fams:
